@@ -3,6 +3,7 @@ From Coq Require Import List NArith ZArith Lia.
 Import ListNotations.
 Require Import ITree.Model.Common ITree.Model.RBTree ITree.Model.MapModel ITree.Model.KeyModel.
 Require Import ITree.Spec.Spec ITree.Proofs.KeyListProofs ITree.Proofs.KeyProofs ITree.Proofs.KeyRefine.
+Require ITree.Model.ArenaModel ITree.Model.ArenaKey ITree.Proofs.ArenaProofs ITree.Proofs.ArenaKeyProofs.
 
 (* [kobs_run] requires of every [KGet t k] output that it equals [ref_get b t k]: the value of the entry
    of the bag with key k whose expiration is > t, None if there is none — for every valid history, so
@@ -26,3 +27,19 @@ Example C06_example :
   exists s, k_run (k_new 8) h = Ret (s, [KONone; KONone; KONone; KOVal (Some 2%Z); KOVal (Some 3%Z); KOVal (Some 1%Z);
                                          KOVal None; KOVal None; KOVal (Some 2%Z)]).
 Proof. split; [kvalid_tac|]. eexists. vm_compute. reflexivity. Qed.
+
+(* get_value as the code performs it (expire_root, then the descent with expire_left / expire_right,
+   each removal a full delete_index on the parent-pointer arena): the arena-level search returns the
+   answer of the tree-level [k_get_value] - the one the theorems above relate to the reference
+   semantics - and leaves an arena that represents the model's tree *)
+Theorem C06_arena_get_value : forall (time key: Z) (s: kstate) (a: ArenaModel.astate kent) (s': kstate)
+  (out: option Z) (evs: list event) (dfuel efuel sfuel: nat),
+  KInv s -> ArenaProofs.Rep a ArenaModel.EMPTY (ArenaModel.aroot a) (kroot s) ->
+  (size kent (kroot s) <= dfuel)%nat -> (size kent (kroot s) < efuel)%nat -> (S (size kent (kroot s)) < sfuel)%nat ->
+  k_get_value s time key = Ret (s', out, evs) ->
+  exists a', ArenaKey.arena_search_value dfuel efuel sfuel (a, kpl s) time key = Ret ((a', kpl s'), out) /\
+    ArenaProofs.Rep a' ArenaModel.EMPTY (ArenaModel.aroot a') (kroot s').
+Proof.
+  intros time key s a s' out evs dfuel efuel sfuel HI HR Hd He Hf H.
+  exact (ArenaKeyProofs.arena_search_value_refines s a s' out evs dfuel efuel sfuel time HI HR Hd He Hf key H).
+Qed.
